@@ -391,15 +391,27 @@ fn c02(suffix: &str, args: &[Val]) -> Val {
 fn c15d(args: &[Val]) -> Val {
     let p = args[0].bytes();
     let d = TypedPath::derive(p).is_windows();
-    let mut all = vec![d, TypedPathBuf::from(p).is_windows(), TypedPathBuf::from(p.to_vec()).is_windows()];
+    // every construction route: (variant, bytes kept)
+    let mut all = vec![
+        (d, TypedPath::derive(p).as_bytes() == p),
+        (TypedPath::from(p).is_windows(), TypedPath::from(p).as_bytes() == p),
+        (TypedPathBuf::from(p).is_windows(), TypedPathBuf::from(p).as_bytes() == p),
+        (TypedPathBuf::from(p.to_vec()).is_windows(), TypedPathBuf::from(p.to_vec()).as_bytes() == p),
+    ];
     if let Ok(st) = std::str::from_utf8(p) {
-        all.push(Utf8TypedPath::derive(st).is_windows());
-        all.push(Utf8TypedPathBuf::from(st).is_windows());
-        all.push(Utf8TypedPathBuf::from(st.to_string()).is_windows());
-        all.push(TypedPathBuf::from(st).is_windows());
+        all.push((Utf8TypedPath::derive(st).is_windows(), Utf8TypedPath::derive(st).as_str() == st));
+        all.push((Utf8TypedPath::from(st).is_windows(), Utf8TypedPath::from(st).as_str() == st));
+        all.push((Utf8TypedPathBuf::from(st).is_windows(), Utf8TypedPathBuf::from(st).as_str() == st));
+        all.push((Utf8TypedPathBuf::from(st.to_string()).is_windows(), Utf8TypedPathBuf::from(st.to_string()).as_str() == st));
+        all.push((TypedPathBuf::from(st).is_windows(), TypedPathBuf::from(st).as_bytes() == p));
+        all.push((TypedPathBuf::from(st.to_string()).is_windows(), TypedPathBuf::from(st.to_string()).as_bytes() == p));
+        all.push((TypedPath::from(st).is_windows(), TypedPath::from(st).as_bytes() == p));
     }
-    if all.iter().any(|x| *x != d) {
+    if all.iter().any(|x| x.0 != d) {
         return c("inconsistent", vec![]);
+    }
+    if all.iter().any(|x| !x.1) {
+        return c("bytes_changed", vec![]);
     }
     c("c15d", vec![Val::Bool(d)])
 }
